@@ -970,3 +970,109 @@ def search_error_render(drv, rng, budget):
         if bad_reason:
             return {"call": "TemplateProgram::new (error rendering)", "input": {"source": src}, "op": ["render_err", hx(src)], "expected": bad_reason, "observed": msg[:500]}
     return None
+
+
+# ---------------------------------------------------------------- C04 pattern typing
+class Pt:
+    """pattern: ('id', name) | ('_',) | ('tuple', [..]) | ('array', [..])"""
+    pass
+
+def gen_pat_type(rng, depth, names):
+    """returns (pattern, conforming type) built together"""
+    r = rng.random()
+    if depth == 0 or r < 0.35:
+        t = Ty("uint", rng.choice([8, 16])) if rng.random() < 0.7 else Ty("bool")
+        if rng.random() < 0.25: return ("_",), t
+        nm = names.pop(0) if names else None
+        return (("id", nm) if nm else ("_",)), t
+    if r < 0.7:
+        k = rng.choice([0, 1, 2, 3, 4])
+        subs = [gen_pat_type(rng, depth - 1, names) for _ in range(k)]
+        return ("tuple", [s[0] for s in subs]), Ty("tuple", [s[1] for s in subs])
+    k = rng.choice([1, 2, 3])
+    p0, t0 = gen_pat_type(rng, depth - 1, names)
+    ps = [p0] + [gen_pat_like(rng, p0, names) for _ in range(k - 1)]
+    return ("array", ps), Ty("array", t0, k)
+
+def gen_pat_like(rng, p, names):
+    """a pattern of the same shape with fresh names"""
+    if p[0] == "id":
+        nm = names.pop(0) if names else None
+        return ("id", nm) if nm else ("_",)
+    if p[0] == "_": return ("_",)
+    return (p[0], [gen_pat_like(rng, q, names) for q in p[1]])
+
+def pat_text(p):
+    if p[0] == "id": return p[1]
+    if p[0] == "_": return "_"
+    inner = ", ".join(pat_text(q) for q in p[1])
+    if p[0] == "tuple": return "(" + inner + ("," if len(p[1]) == 1 else "") + ")"
+    return "[" + inner + "]"
+
+def pat_ids(p):
+    if p[0] == "id": return [p[1]]
+    if p[0] == "_": return []
+    return [x for q in p[1] for x in pat_ids(q)]
+
+def conforms(p, t):
+    """documented rule: an identifier or `_` matches any type; a tuple pattern matches a tuple type of the SAME arity
+    component-wise; an array pattern matches an array type of the same size element-wise"""
+    if p[0] in ("id", "_"): return True
+    if p[0] == "tuple":
+        return t.kind == "tuple" and len(t.args[0]) == len(p[1]) and all(conforms(q, u) for q, u in zip(p[1], t.args[0]))
+    return t.kind == "array" and t.args[1] == len(p[1]) and all(conforms(q, t.args[0]) for q in p[1])
+
+def mutate_type(rng, t):
+    """a type that differs from t in one place (arity, size, or tuple<->array)"""
+    if t.kind == "tuple":
+        ts = list(t.args[0])
+        c = rng.randrange(4)
+        if c == 0: return Ty("tuple", ts + [Ty("uint", 8)])
+        if c == 1 and ts: return Ty("tuple", ts[:-1])
+        if c == 2 and ts:
+            i = rng.randrange(len(ts)); ts[i] = mutate_type(rng, ts[i]); return Ty("tuple", ts)
+        return Ty("array", Ty("uint", 8), len(ts))
+    if t.kind == "array":
+        c = rng.randrange(3)
+        if c == 0: return Ty("array", t.args[0], t.args[1] + 1)
+        if c == 1 and t.args[1] > 0: return Ty("array", t.args[0], t.args[1] - 1)
+        return Ty("array", mutate_type(rng, t.args[0]), t.args[1])
+    return Ty("uint", 32) if not (t.kind == "uint" and t.args[0] == 32) else Ty("bool")
+
+
+@searcher("pattern/")
+def search_pattern_typing(drv, rng, budget):
+    """let statements `let PATTERN: TYPE = VALUE;` with patterns of depth <= 2 (tuples of 0-4, arrays of 1-3, identifiers, `_`):
+    accepted when the pattern conforms to the type and binds each name once (and every bound name then has the value of its
+    component); rejected when arity / size / shape differ in one place or a name is bound twice"""
+    for it in range(min(budget, 400)):
+        names = ["a", "b", "c", "d", "e", "f", "g", "h"]
+        p, t = gen_pat_type(rng, 2, names)
+        vtxt, _ = gen_value(rng, t)
+        mode = rng.randrange(3)
+        if mode == 0:
+            src = "fn main() {\n    let %s: %s = %s;\n}\n" % (pat_text(p), t.text(), vtxt)
+            got = drv.call("run", hx(src), hx(""), hx(""), "0")
+            if got != "ok":
+                return {"call": "let with a conforming pattern", "input": {"program": src}, "op": ["run", hx(src), hx(""), hx(""), "0"], "expected": "ok", "observed": got}
+        elif mode == 1:
+            t2 = mutate_type(rng, t)
+            if conforms(p, t2):
+                continue
+            v2, _ = gen_value(rng, t2)
+            src = "fn main() {\n    let %s: %s = %s;\n}\n" % (pat_text(p), t2.text(), v2)
+            got = drv.call("run", hx(src), hx(""), hx(""), "0")
+            if not got.startswith("compile-err") or "Failed to compile to Simplicity" in got:
+                return {"call": "let with a pattern that does not fit the type", "input": {"program": src}, "op": ["run", hx(src), hx(""), hx(""), "0"],
+                        "expected": "compile-err from the front end (pattern does not match type)", "observed": got}
+        else:
+            ids = pat_ids(p)
+            if len(ids) < 2:
+                continue
+            # bind one name twice
+            dup = pat_text(p).replace(ids[1], ids[0], 1)
+            src = "fn main() {\n    let %s: %s = %s;\n}\n" % (dup, t.text(), vtxt)
+            got = drv.call("run", hx(src), hx(""), hx(""), "0")
+            if not got.startswith("compile-err"):
+                return {"call": "let binding one name twice in a pattern", "input": {"program": src}, "op": ["run", hx(src), hx(""), hx(""), "0"], "expected": "compile-err", "observed": got}
+    return None
